@@ -1,3 +1,77 @@
 """vcheck configuration of work group I2: PROPS = {"Cxx": {"families": [fam("name", quick_n, thorough_n)], "defects": ["Dn"]}}"""
 
-PROPS = {}
+# i2.pat     : (stored pattern, match-case, target) -> Go preparePattern + MatchString vs modelPat (groups A + G composed)
+# i2.match   : NetworkRule.Match evaluated entirely in the model (Ext.pat := modelPat), no Go pattern table
+# i2.newrule : rules.NewRule vs the complete parser model (groups D, E, H composed), full record dump;
+#              Go-supplied tables: netip.ParseAddr / ParsePrefix only (regex shortcut from modelRegexpShortcut)
+_PAT = fam("i2.pat", 4000, 60000)
+_MATCH = fam("i2.match", 3000, 50000)
+_NEWRULE = fam("i2.newrule", 4000, 60000)
+# i2.textmatch : rule TEXT + request -> Go NewNetworkRule + Match vs complete parser model + Match over modelPat vs
+#                specMatchNoShortcut (modifiers as set membership + documented mask language, no shortcut test)
+_TEXTMATCH = fam("i2.textmatch", 3000, 50000)
+# i2.reshortcut : findRegexpShortcut(/regex/) vs the text-level model (heuristics + literal merging + factoring of Go's parser)
+_RESHORTCUT = fam("i2.reshortcut", 6000, 100000)
+
+PROPS = {
+    "C03": {"families": [_PAT, _MATCH, _TEXTMATCH]},
+    "C04": {"families": [_PAT, _MATCH, _NEWRULE, _TEXTMATCH]},
+    "C05": {"families": [_MATCH, _TEXTMATCH, _RESHORTCUT]},
+    "C10": {"families": [_NEWRULE]},
+    "C12": {"families": [_NEWRULE, _TEXTMATCH, _RESHORTCUT]},
+    "C18": {"families": [_NEWRULE]},
+}
+
+# bin/vconfig.py merges the FAMILIES and DEFECTS of an already registered property but replaces the
+# other keys (rule, explanation, assumptions, extra, level, coverage_extra) by those of the file loaded
+# last -- this one.  Carry the earlier groups' keys over, and append our own remarks.
+import glob as _g
+import importlib.util as _u
+import os as _o
+
+
+def _inherited():
+    here = _o.path.dirname(_o.path.abspath(__file__))
+    me = _o.path.basename(__file__)
+    acc = {}
+    for f in sorted(_g.glob(_o.path.join(here, "vconfig_*.py"))):
+        if _o.path.basename(f) >= me:
+            continue
+        spec = _u.spec_from_file_location("_i2_" + _o.path.basename(f)[:-3], f)
+        m = _u.module_from_spec(spec)
+        m.fam = fam
+        try:
+            spec.loader.exec_module(m)
+        except Exception:
+            continue
+        for k, v in getattr(m, "PROPS", {}).items():
+            d = acc.setdefault(k, {})
+            for kk, vv in v.items():
+                if kk not in ("families", "defects"):
+                    d[kk] = vv
+    return acc
+
+
+_NOTE = {
+    "C03": " i2.pat / i2.match (integration): the pattern oracle of Match is the composed model modelPat "
+           "(group A's regexPat for /regex/ rules, group G's compiledAccepts otherwise), compared with the rule's own "
+           "preparePattern + MatchString; spec column = maskAccepts for mask patterns.",
+    "C04": " i2.match (integration): the whole of NetworkRule.Match in the model, no Go pattern table; spec = specMatchFull "
+           "(modifiers as set membership + documented mask language). i2.newrule: complete NewRule model, full record dump.",
+    "C05": " i2.match (integration): Match with the shortcut test and the modelled pattern, no oracle.",
+    "C10": " i2.newrule (integration): $dnsrewrite values parsed inside the complete NewRule model (group H's loadDNSRewrite "
+           "instantiated in group E's option parser), full record dump.",
+    "C12": " i2.newrule (integration): rules.NewRule vs the complete parser model (TrimSpace, dispatch, hosts, cosmetic, network, "
+           "every modifier, the shortcut of /regex/ rules from the text-level model of findRegexpShortcut, itself checked by i2.reshortcut); "
+           "Go-supplied tables only for netip.",
+    "C18": " i2.newrule (integration): hosts lines through the complete NewRule model (group H's NewHostRule over group E's "
+           "IsDomainName, group D's TrimSpace), full H record dump.",
+}
+
+_inh = _inherited()
+for _k in list(PROPS):
+    _d = dict(_inh.get(_k, {}))
+    _d.update(PROPS[_k])
+    if "rule" in _d:
+        _d["rule"] = _d["rule"] + _NOTE.get(_k, "")
+    PROPS[_k] = _d
